@@ -42,7 +42,8 @@ CFG = {
         '(distinct ids) of at most min(degreeBound, index searchSize - 1) vectors and query searchSize >= vectors + 1. "Exact" = '
         'sound and a candidate is left out only if the answer has k rows and it is at least as far as every row (ties free)',
         'cached neighbour points are assumed coherent with the vector store (true when every id changes at most once per batch; '
-        'see C10 c10_same_id_twice_refuted for the batch shape that breaks it)',
+        'see C10 c10_same_id_twice_refuted for the request shape -- the same point twice in one update request -- for which the real '
+        'search returns a point whose vector field was removed)',
     ],
     'trusted_extra': ['Model_Vamana.v (DistSet, greedySearch, Search post-processing, insert path) is tied to '
                       'shard/index/vamana/{distset,search,vamana,insert}.go by reading; the replay judges the REAL answers by the '
